@@ -113,3 +113,29 @@ ENGINES += [
     {"name": "ccel", "path": "spec/Ccel.tla", "serves_properties": ["C18"], "kind_free_text": "TLA+ spec of ParseCcelWithTdQuote's gates + TLC + sample-log driver"},
     {"name": "checktool", "path": "spec/CheckTool.tla", "serves_properties": ["C19"], "kind_free_text": "TLA+ spec of the check tool's merge and exit codes + TLC + process driver with fake PCS"},
 ]
+
+# ---- additions after the seeded rounds (DESIGN.md Appendix F / G)
+_HIST = (" A second part decides the property over two-call histories (spec/VerifyHistory.tla: honest twin / faulty world / other platform sharing keys, certificates and signature bytes; "
+         "TdxQuote and RawTdxQuote mixed; shared or fresh Options; SupportedTcbLevelsFromCollateral or a caller-side pool change between the calls), every call judged by the single-call property.")
+for _p in ("C01", "C02", "C03", "C04", "C05", "C06", "C07"):
+    CHECKS[_p]["text"] += _HIST
+CHECKS["C01"]["text"] += (" A third part (spec/VerifyIsolation.tla) model-checks all interleavings of concurrent calls with private buffers (and refutes the shared-buffer counter-model) and runs sixteen goroutines per altered "
+                          "region that verify genuine and altered quotes at the same time: every verdict must be the verdict of the goroutine's own input.")
+CHECKS["C06"]["text"] += " Timed histories with Options.Now == nil (the leaf expires between two calls; the first call succeeds, or fails while fetching) are part of it."
+CHECKS["C08"]["text"] += " The same cases are also run as policy messages through PolicyToOptions (dense and sparse messages)."
+CHECKS["C10"]["text"] += " A fifth part serves every HTTP response shape of spec/HttpsGet.tla (statuses, redirects, TLS faults, truncated and absurdly long bodies) to trust.SimpleHTTPSGetter under the same totality judge."
+CHECKS["C11"]["text"] += " spec/SystemAbstraction.tla checks (TLC) that the composition's one-line abstractions agree with TdxVerify, GuestClient and CheckTool."
+CHECKS["C15"]["text"] += " Cases are also run after an earlier call in the same process (a successful device call on the same goroutine; a provider that answered IsSupported differently); devices may leave OutLen unwritten or rewrite the request length; result codes include values whose low 32 bits are zero."
+CHECKS["C17"]["text"] += " Added by case extension: every crypto.Hash value 0..31, indices beyond 32 bits, and TSM write faults (mkdir / index / digest failing in a call that reaches it) followed by calls that must be unaffected."
+CHECKS["C18"]["text"] += " Also: the same options value (and the same verify.Options object) serving a successful call first; empty and nil event logs; the genuine sample quote under no pool and under an empty pool; a component-wise TEE_TCB_SVN minimum."
+CHECKS["C19"]["text"] += " Also: -quiet / -verbosity / quote on standard input, the config's any_mr_td allow-list under an -mr_td flag, zero and negative -timeout / -max_retry_delay, every number spelling the tool accepts, several kinds of unparsable quote; runs against an unreachable PCS must end within five seconds."
+CHECKS["C20"]["text"] += (" RetryInd.tla: Apalache proves the loop's invariant for all parameter values. A grid point with forty failures in one call; successes with empty / nil body and headers; the bound is also checked through the "
+                          "command line of tools/check. spec/HttpsGet.tla (the wrapped transport and DefaultHTTPSGetter's shape) is validated as a non-verdict part.")
+ENGINES += [
+    {"name": "isolation", "path": "spec/VerifyIsolation.tla", "serves_properties": ["C01"], "kind_free_text": "TLA+ spec of concurrent verifications with private buffers (+ shared-buffer counter-model) + TLC + concurrent driver"},
+    {"name": "httpsget", "path": "spec/HttpsGet.tla", "serves_properties": ["C10", "C20"], "kind_free_text": "TLA+ spec of the HTTPS transport under the retrying getter + TLC + in-harness TLS servers behind a CONNECT proxy"},
+    {"name": "abstraction", "path": "spec/SystemAbstraction.tla", "serves_properties": ["C11"], "kind_free_text": "cross-specification consistency: the composition's abstractions vs TdxVerify / GuestClient / CheckTool (TLC)"},
+]
+for _e in ENGINES:
+    if _e["name"] == "history":
+        _e["serves_properties"] = ["C01", "C02", "C03", "C04", "C05", "C06", "C07", "C12"]
